@@ -129,6 +129,14 @@ func c07Run(r *engine.Run) int {
 	}
 	n := 0
 	engine.Map("c07", cases, func(i int, c json.RawMessage, res *engine.Result) {
+		if res.Died && !res.TimedOut {
+			// a Go panic inside an SQLite callback may also take the worker down instead of being recovered;
+			// for the equal-numeric-key pairs that is the same (known) root cause and gets the same class
+			var cc c07Case
+			if json.Unmarshal(c, &cc) == nil && cc.Kind == "e2e" && cc.EPN < 4096 && sqlEqualDistinct(V[cc.I], V[cc.J]) {
+				res = &engine.Result{Execs: 1, Viol: []engine.Viol{{Class: "equal-numeric-keys-distinct-representation|multi-level", Msg: "worker died: " + engine.PanicLine(res.Stderr)}}}
+			}
+		}
 		r.Add("c07", c, res)
 		n++
 		if res.Data != nil && n%997 == 1 {
